@@ -406,4 +406,201 @@ theorem runHistoryStack_inv2 : ∀ (ops : List (Relation × Option (Nat × Nat))
     intro op hop s'' h1 h2
     exact hok op (List.mem_cons_of_mem _ hop) s'' (by rw [h1, hk.1]) (by rw [h2, hk.2.1])
 
+/-! ### equivalence of the two formulations of the walk -/
+
+/-- stack ⟹ recursive: a non-fuel result of the stack loop with `k` iterations is the result of
+the recursive walk for every recursion fuel `> k` -/
+theorem walkStack_eq_rec_of_stack {k root : Nat} {s : Store} {R : M Store}
+    (h : walkStack k root s = R) (hR : R ≠ .error .fuel) :
+    ∀ f, k + 1 ≤ f → walkDoubles f root s = R :=
+  fun _ hf => walkDoubles_fuel_le hf root s R (walkStack_imp_rec h hR) hR
+
+/-- recursive ⟹ stack: a non-fuel result of the recursive walk is the result of the stack loop for
+every sufficiently large number of iterations (in particular the loop terminates) -/
+theorem walkStack_eq_rec_of_rec {f root : Nat} {s : Store} {R : M Store}
+    (h : walkDoubles f root s = R) (hR : R ≠ .error .fuel) :
+    ∃ c, ∀ k, c ≤ k → walkStack k root s = R := by
+  obtain ⟨c, hc⟩ := pushSim_walkDoubles f root s (by rw [h]; exact hR)
+  refine ⟨c, fun k hk => ?_⟩
+  have := hc (k - c) []
+  rw [show c + (k - c) = k by omega] at this
+  unfold walkStack
+  rw [this, h]
+  cases R with
+  | error e => rfl
+  | ok a => show walkIter (k - c) [] a = _; cases (k - c) <;> rfl
+
+/-! ### `add` over an arbitrary walker -/
+
+def addWith (wk : Store → Nat → Store → M Store) (r : Relation) (pq : Option (Nat × Nat))
+    (s : Store) : M Store :=
+  if ¬ r.x < s.n then throw .debug
+  else if r.cofactor = 1 then addCycle r s
+  else if r.cofactor < s.maxlarge then do
+    let res ← combineSingle r { s with nPartials := s.nPartials + 1 }
+    if res.1 then pure res.2
+    else do
+      let b ← pack r
+      let s1 := res.2.setPartial r.cofactor b
+      if r.cofactor ≥ W32 then throw .panic
+      else wk s1 r.cofactor s1
+  else
+    match pq with
+    | none => pure s
+    | some (p, q) =>
+      if p ≥ W32 ∨ q ≥ W32 then throw .panic
+      else do
+        let s0 := { s with nDoubles := s.nDoubles + 1 }
+        let res ← combineDouble (wk s0) r p q s0
+        if res.1 then pure res.2
+        else do
+          let key := if p < q then (p, q) else (q, p)
+          let b ← pack r
+          pure { res.2 with doubles := ainsert ltPair key b res.2.doubles,
+                            doublesRev := sinsert (key.2, key.1) res.2.doublesRev }
+
+theorem add_eq_addWith (r : Relation) (pq : Option (Nat × Nat)) (s : Store) :
+    add r pq s = addWith (fun s0 => walkDoubles s0.fuel) r pq s := rfl
+
+theorem addStack_eq_addWith (r : Relation) (pq : Option (Nat × Nat)) (s : Store) :
+    addStack r pq s = addWith (fun s0 => walkStack s0.iterFuel) r pq s := by
+  unfold addStack addWith
+  simp only [combineDoubleStack_eq]
+  rfl
+
+theorem afterStep_refine {w w' : Nat → Store → M Store} (hw : Refines w w')
+    (res : Bool × Option Nat × Store) (R : M (Bool × Store)) (h : afterStep w res = R)
+    (hR : R ≠ .error .fuel) : afterStep w' res = R := by
+  obtain ⟨ok, nx, s⟩ := res
+  cases nx with
+  | none => exact h
+  | some x =>
+    simp only [afterStep] at h ⊢
+    cases hW : w x s with
+    | error e =>
+      rw [hW] at h
+      rw [hw x s _ hW (by intro hc; rw [hc] at h; exact hR h.symm)]
+      exact h
+    | ok s1 =>
+      rw [hW] at h
+      rw [hw x s _ hW (by intro hc; cases hc)]
+      exact h
+
+theorem addWith_refine {wk wk' : Store → Nat → Store → M Store} (hw : ∀ s0, Refines (wk s0) (wk' s0))
+    {r : Relation} {pq : Option (Nat × Nat)} {s : Store} {R : M Store}
+    (h : addWith wk r pq s = R) (hR : R ≠ .error .fuel) : addWith wk' r pq s = R := by
+  unfold addWith at h ⊢
+  split
+  · rename_i hc; rw [if_pos hc] at h; exact h
+  · rename_i hc
+    rw [if_neg hc] at h
+    split
+    · rename_i hc1; rw [if_pos hc1] at h; exact h
+    · rename_i hc1
+      rw [if_neg hc1] at h
+      split
+      · rename_i hlt
+        rw [if_pos hlt] at h
+        refine bind_refine (fun res R' h' hR' => ?_) h hR
+        split
+        · rename_i hd; rw [if_pos hd] at h'; exact h'
+        · rename_i hd
+          rw [if_neg hd] at h'
+          refine bind_refine (fun b R'' h'' hR'' => ?_) h' hR'
+          split
+          · rename_i h32; rw [if_pos h32] at h''; exact h''
+          · rename_i h32
+            rw [if_neg h32] at h''
+            exact hw _ _ _ _ h'' hR''
+      · rename_i hlt
+        rw [if_neg hlt] at h
+        split
+        · exact h
+        · rename_i p q
+          simp only at h
+          split
+          · rename_i h32; rw [if_pos h32] at h; exact h
+          · rename_i h32
+            rw [if_neg h32] at h
+            simp only [combineDouble_eq_step, bind_assoc'] at h ⊢
+            refine bind_refine (fun res R' h' hR' => ?_) h hR
+            cases hA : afterStep (wk { s with nDoubles := s.nDoubles + 1 }) res with
+            | error e =>
+              rw [hA] at h'
+              rw [afterStep_refine (hw _) res _ hA (by intro hc; rw [hc] at h'; exact hR' h'.symm)]
+              exact h'
+            | ok res2 =>
+              rw [hA] at h'
+              rw [afterStep_refine (hw _) res _ hA (by intro hc; cases hc)]
+              exact h'
+
+theorem le_iterFuel (s : Store) : s.doubles.length ≤ s.iterFuel := by
+  unfold Store.iterFuel
+  simp only
+  generalize s.doubles.length = a
+  generalize s.doublesRev.length = b
+  have h1 : a + b ≤ (a + b) * (a + b) * (a + b + 1) := by
+    rcases Nat.eq_zero_or_pos (a + b) with h | h
+    · rw [h]
+    · calc a + b = (a + b) * 1 * 1 := by ring
+        _ ≤ (a + b) * (a + b) * (a + b + 1) :=
+          Nat.mul_le_mul (Nat.mul_le_mul_left _ h) (by omega)
+  have : 2 * (a + b) * (a + b) * (a + b + 1) = 2 * ((a + b) * (a + b) * (a + b + 1)) := by ring
+  omega
+
+/-- Whatever the explicit-stack `add` returns (other than "out of iterations") is what the
+recursive `add` returns, as soon as the latter does not run out of its recursion fuel. -/
+theorem addStack_eq_add {r : Relation} {pq : Option (Nat × Nat)} {s : Store} {R R' : M Store}
+    (h : add r pq s = R) (hR : R ≠ .error .fuel) (h' : addStack r pq s = R')
+    (hR' : R' ≠ .error .fuel) : R' = R := by
+  rw [add_eq_addWith] at h
+  rw [addStack_eq_addWith] at h'
+  have big : ∀ s0 : Store, s0.fuel ≤ s0.iterFuel + 1 := fun s0 => by
+    have := le_iterFuel s0; unfold Store.fuel; omega
+  have h1 := addWith_refine (wk' := fun s0 => walkDoubles (s0.iterFuel + 1))
+    (fun s0 => walkDoubles_fuel_le (big s0)) h hR
+  have h2 := addWith_refine (wk' := fun s0 => walkDoubles (s0.iterFuel + 1))
+    (fun s0 x s1 R0 hx hR0 => walkStack_imp_rec hx hR0) h' hR'
+  rw [← h1, ← h2]
+
+/-- no panic for the explicit-stack `add`: the only errors left are a `u64` counter overflow and
+"out of iterations" (excluded by K, and by `walkStack_eq_rec_of_rec` for a large enough bound) -/
+theorem addStack_np {r : Relation} {pq : Option (Nat × Nat)} {s : Store} (hi : Inv s) (hi2 : Inv2 s)
+    (hn : s.n ≤ X512) (hin : InputOK2 s r pq) :
+    ∀ e, addStack r pq s = .error e → e = .overflow ∨ e = .fuel := by
+  intro e he
+  by_cases hf : e = .fuel
+  · exact Or.inr hf
+  · left
+    have hnp := add_np hi hi2 hn hin
+    have hR : add r pq s ≠ .error .fuel := by
+      intro hc
+      have := hnp _ hc
+      cases this
+    have := addStack_eq_add rfl hR he (by intro hc; cases hc; exact hf rfl)
+    exact hnp e this.symm
+
+theorem runHistoryStack_np : ∀ (ops : List (Relation × Option (Nat × Nat))) (s : Store),
+    Inv s → Inv2 s → s.n ≤ X512 → HistoryOK2 s.n s.maxlarge ops →
+    ∀ e, runHistoryStack ops s = .error e → e = .overflow ∨ e = .fuel := by
+  intro ops
+  induction ops with
+  | nil => intro s _ _ _ _ e he; simp [runHistoryStack, pure, Except.pure] at he
+  | cons op t ih =>
+    obtain ⟨r, pq⟩ := op
+    intro s hi hi2 hn hok e he
+    have hin := hok (r, pq) List.mem_cons_self s rfl rfl
+    unfold runHistoryStack at he
+    cases hs1 : addStack r pq s with
+    | error e1 =>
+      rw [hs1] at he
+      cases he
+      exact addStack_np hi hi2 hn hin e hs1
+    | ok s1 =>
+      rw [hs1] at he
+      have hk := addStack_keeps hs1 hi hn hin.base
+      refine ih s1 hk.2.2 (addStack_inv2 hs1 hi hi2 hn hin) (by rw [hk.1]; exact hn) ?_ e he
+      intro op hop s' h1 h2
+      exact hok op (List.mem_cons_of_mem _ hop) s' (by rw [h1, hk.1]) (by rw [h2, hk.2.1])
+
 end Ymq.Relations
